@@ -35,6 +35,10 @@ type Problem struct {
 	rows    []row
 	byWire  [][]int32
 	IsR1CS  bool
+	// Prefer lists wires to branch on first (hint outputs: the prover's free
+	// choices; the other internal wires are usually determined by propagation
+	// once these are fixed). Completeness does not depend on it.
+	Prefer map[int32]bool
 }
 
 // New prepares a problem from an extracted system (field must be small).
@@ -106,24 +110,98 @@ func New(s *cseval.Sys) (*Problem, error) {
 // NbRows returns the number of rows.
 func (p *Problem) NbRows() int { return len(p.rows) }
 
+func at(v []int32, w int32) uint32 {
+	if v[w] < 0 {
+		return 0 // only reached for wires that do not matter (see effUnknowns)
+	}
+	return uint32(v[w])
+}
+
 func (p *Problem) holds(r *row, v []int32) bool {
 	P := p.P
 	if r.kind == 0 {
 		var a, b, c uint32
 		for _, t := range r.l {
-			a += t.c * uint32(v[t.w])
+			a += t.c * at(v, t.w)
 		}
 		for _, t := range r.r {
-			b += t.c * uint32(v[t.w])
+			b += t.c * at(v, t.w)
 		}
 		for _, t := range r.o {
-			c += t.c * uint32(v[t.w])
+			c += t.c * at(v, t.w)
 		}
 		return ((a%P)*(b%P))%P == c%P
 	}
-	a, b, c := uint32(v[r.xa]), uint32(v[r.xb]), uint32(v[r.xc])
+	a, b, c := at(v, r.xa), at(v, r.xb), at(v, r.xc)
 	s := r.ql*a + r.qr*b + r.qo*c + r.qc + (r.qm*a%P)*b
 	return s%P == 0
+}
+
+// effUnknowns returns the unassigned wires of r that can still influence it
+// under the current partial assignment: in L*R=O the unknowns of one factor do
+// not matter once the other factor is fully known and zero; in a gate the
+// product term a*b vanishes once one operand is known to be zero.
+func (p *Problem) effUnknowns(r *row, v []int32, buf []int32) []int32 {
+	out := buf[:0]
+	add := func(w int32) {
+		for _, x := range out {
+			if x == w {
+				return
+			}
+		}
+		out = append(out, w)
+	}
+	if r.kind == 0 {
+		side := func(ts []term) (sum uint32, unk bool) {
+			for _, t := range ts {
+				if t.c == 0 {
+					continue
+				}
+				if v[t.w] < 0 {
+					unk = true
+				} else {
+					sum += t.c * uint32(v[t.w])
+				}
+			}
+			return sum % p.P, unk
+		}
+		a, ua := side(r.l)
+		b, ub := side(r.r)
+		lMatters := !(!ub && b == 0)
+		rMatters := !(!ua && a == 0)
+		if lMatters {
+			for _, t := range r.l {
+				if t.c != 0 && v[t.w] < 0 {
+					add(t.w)
+				}
+			}
+		}
+		if rMatters {
+			for _, t := range r.r {
+				if t.c != 0 && v[t.w] < 0 {
+					add(t.w)
+				}
+			}
+		}
+		for _, t := range r.o {
+			if t.c != 0 && v[t.w] < 0 {
+				add(t.w)
+			}
+		}
+		return out
+	}
+	aZero := v[r.xa] == 0
+	bZero := v[r.xb] == 0
+	if v[r.xa] < 0 && (r.ql != 0 || (r.qm != 0 && !bZero)) {
+		add(r.xa)
+	}
+	if v[r.xb] < 0 && (r.qr != 0 || (r.qm != 0 && !aZero)) {
+		add(r.xb)
+	}
+	if v[r.xc] < 0 && r.qo != 0 {
+		add(r.xc)
+	}
+	return out
 }
 
 // Result of a query.
@@ -179,21 +257,17 @@ func (s *search) propagate(queue []int32) (ok bool, bestW int32, bestDom []int32
 		inq[q] = true
 	}
 	buf := make([]int32, 0, s.p.P)
+	ebuf := make([]int32, 0, 8)
 	for len(queue) > 0 {
 		ri := queue[0]
 		queue = queue[1:]
 		delete(inq, ri)
 		r := &s.p.rows[ri]
+		eu := s.p.effUnknowns(r, s.v, ebuf[:0])
+		n := len(eu)
 		unk := int32(-1)
-		n := 0
-		for _, w := range r.wires {
-			if s.v[w] < 0 {
-				unk = w
-				n++
-				if n > 1 {
-					break
-				}
-			}
+		if n > 0 {
+			unk = eu[0]
 		}
 		switch n {
 		case 0:
@@ -289,6 +363,21 @@ func (s *search) dfs(queue []int32) {
 		s.undo(mark)
 		return
 	}
+	// only the SET of output tuples matters: a subtree whose outputs are all fixed to an
+	// already recorded tuple cannot add anything
+	if len(s.outs) > 0 {
+		all := true
+		for _, o := range s.outs {
+			if s.v[o] < 0 {
+				all = false
+				break
+			}
+		}
+		if all && s.res.Outs[s.key()] {
+			s.undo(mark)
+			return
+		}
+	}
 	// choose a branching wire: the most restricted single-unknown wire, else the
 	// lowest unassigned non-output wire that still occurs in an open row
 	w := bw
@@ -298,30 +387,56 @@ func (s *search) dfs(queue []int32) {
 		for _, o := range s.outs {
 			isOut[o] = true
 		}
-		cand, candOut := int32(-1), int32(-1)
+		cand, candOut, candPref := int32(-1), int32(-1), int32(-1)
+		restrictedW := int32(-1)
+		var restrictedDom []int32
+		buf := make([]int32, 0, s.p.P)
 		for ri := range s.p.rows {
 			r := &s.p.rows[ri]
-			open := false
-			for _, x := range r.wires {
-				if s.v[x] < 0 {
-					open = true
-					break
-				}
-			}
-			if !open {
+			eu := append([]int32(nil), s.p.effUnknowns(r, s.v, nil)...)
+			nUnk := len(eu)
+			if nUnk == 0 {
 				continue
 			}
-			for _, x := range r.wires {
+			if nUnk == 1 {
+				d := s.feasible(r, eu[0], buf)
+				if len(d) == int(s.p.P) {
+					// the row holds whatever its only unknown wire is: it does not constrain it
+					// (e.g. the inverse hint of IsZero when the operand is zero); never branch on it
+					continue
+				}
+				// a restricted wire found in a row that was not re-examined by the last propagation
+				if restrictedW < 0 || len(d) < len(restrictedDom) {
+					restrictedW = eu[0]
+					restrictedDom = append([]int32(nil), d...)
+				}
+				continue
+			}
+			for _, x := range eu {
 				if s.v[x] < 0 {
-					if isOut[x] {
+					switch {
+					case isOut[x]:
 						if candOut < 0 || x < candOut {
 							candOut = x
 						}
-					} else if cand < 0 || x < cand {
-						cand = x
+					case s.p.Prefer[x]:
+						if candPref < 0 || x < candPref {
+							candPref = x
+						}
+					default:
+						if cand < 0 || x < cand {
+							cand = x
+						}
 					}
 				}
 			}
+		}
+		if candPref >= 0 {
+			cand = candPref
+		}
+		if restrictedW >= 0 {
+			cand = restrictedW
+			dom = restrictedDom
 		}
 		w = cand
 		if w < 0 {
@@ -333,7 +448,9 @@ func (s *search) dfs(queue []int32) {
 			s.undo(mark)
 			return
 		}
-		dom = nil
+		if w != restrictedW {
+			dom = nil
+		}
 	}
 	if dom == nil {
 		dom = make([]int32, s.p.P)
